@@ -17,8 +17,6 @@ package logdb
 import (
 	"math"
 
-	"github.com/cockroachdb/errors"
-
 	"github.com/lni/dragonboat/v4/internal/logdb/kv"
 	"github.com/lni/dragonboat/v4/raftio"
 	pb "github.com/lni/dragonboat/v4/raftpb"
@@ -351,13 +349,20 @@ func (be *batchedEntries) getBatchFromDB(shardID uint64,
 	k := be.keys.get()
 	defer k.Release()
 	k.SetEntryBatchKey(shardID, replicaID, batchID)
+	found := false
 	if err := be.kvs.GetValue(k.Key(), func(data []byte) error {
 		if len(data) == 0 {
-			return errors.New("no such entry")
+			return nil
 		}
+		found = true
 		pb.MustUnmarshal(&e, data)
 		return nil
 	}); err != nil {
+		// a storage error is not the same as a missing batch, treating it as
+		// missing makes the caller overwrite the stored batch
+		panic(err)
+	}
+	if !found {
 		return e, false
 	}
 	if len(e.Entries) > 1 {
